@@ -192,6 +192,14 @@ func (s *Sys) Auto(o AutoOpts) (steps int, quiescent bool, trace []string) {
 			time.Sleep(40 * time.Millisecond)
 			s.settle(10 * quiet)
 			if ids, _ = s.queue.snapshot(); len(ids) == 0 {
+				// the events of the real store watchers arrive asynchronously; on a loaded machine (other checks,
+				// Lean builds) later than the 80 ms above: look once more after a longer pause before the queue is
+				// declared empty for good (a stranded transaction is reported from this verdict)
+				time.Sleep(160 * time.Millisecond)
+				s.settle(10 * quiet)
+				ids, _ = s.queue.snapshot()
+			}
+			if len(ids) == 0 {
 				return steps, true, trace
 			}
 		}
